@@ -67,7 +67,7 @@ def repeated(key, s):
 
 # ------------------------------------------------------------------ tokens
 class Tok:
-    __slots__ = ("text", "role", "kind", "ref", "depth", "stmt_start", "line", "col", "raw")
+    __slots__ = ("text", "role", "kind", "ref", "depth", "stmt_start", "line", "col", "raw", "text_written")
 
     def __init__(self, text, role, kind, ref=None, depth=0, stmt_start=False, raw=None):
         self.text = text          # text as it will be written (after quoting / casing)
@@ -213,6 +213,7 @@ def render(block_or_blocks, style=None):
             else:
                 col += 1
         t.line, t.col = line, col
+        t.text_written = text
         for ch in text:
             if ch == "\n":
                 line += 1
